@@ -890,7 +890,7 @@ PROPS = {
     ),
     "C09": dict(
         level="proof", module="Rsdns.Props.C09", modules=["Rsdns.Props.C09", "Rsdns.Props.C09History"],
-        technique="Lean 4 invariant + refinement proof over call histories of unbounded length (`run_conforming`: along every protocol-conforming history the reader is in a situation of the linear pass; `seek_when_documented`; error latch; offsets grow) + reference automaton over one linear pass on the real code",
+        technique="Lean 4 invariant + refinement proof over call histories of unbounded length, for EVERY message (`reader_follows_pass`: along every history in the documented order the reader is in a situation of the skip pass over the message as far as that pass gets; calls reaching the item that cannot be skipped fail and latch; `seek_when_documented`; error latch; offsets grow) + reference automaton over one linear pass on the real code",
         level_text="Proved for all states / all conforming histories of unbounded length: `done` is sticky and every failing sequential "
                    "call latches it (a seek answered RecordsSectionOffsetUnknown changes nothing); an exhausted reader reports "
                    "ReaderDone; the tracker's counters and lazily learned offsets satisfy a coupling invariant with the layout of one "
@@ -900,20 +900,23 @@ PROPS = {
                    "offset is known (doc_known), hence seek succeeds (seek_known). On the implementation a specification automaton "
                    "replays each generated history against ONE linear pass of the same message on a fresh reader and checks every "
                    "returned item, every count and every seek outcome.",
-        level_note="Props/C09History.lean folds everything into one induction over `Reader.run`: for messages whose skip pass succeeds "
-                   "(all well-formed messages and those whose only defects are inside typed RDATA) and every protocol-conforming "
-                   "history, the reader is always dead (sticky), inside the questions at the pass position, between records at the "
-                   "index of its counters, or in the middle of the record whose marker it returned; seek succeeds whenever the "
-                   "documented criterion holds and lands on the first record of the section (or the next non-empty one); record "
-                   "offsets grow. `run_conforming` excludes panics by hypothesis; `run_documented` discharges it with C01's invariant (Sane), "
-                   "so the statement holds for the documented call order alone, with every call returning a value or an error. "
-                   "Messages whose skip pass fails midway "
-                   "are covered by the latch theorems, the automaton and the correspondence. Trusted: Lean kernel; model of "
+        level_note="Props/C09History.lean folds everything into one induction over `Reader.run`, for EVERY byte string that new() + "
+                   "header() accept (reader_follows_pass): layoutOf is the skip pass over the message as far as it gets (passNq "
+                   "questions, passNr records — PassUpto; the item behind them, if the counts announce one, cannot be skipped — Fails; "
+                   "layout_exists); along every history in the documented order every call returns a value or an error (C01's invariant "
+                   "Sane discharges NoPanic) and the reader is always dead (sticky), inside the questions at the pass position, between "
+                   "records at the index of its counters (never behind the item that cannot be skipped), in the middle of the record "
+                   "whose marker it returned, or holding the marker of the record that cannot be skipped, whose data no call can consume "
+                   "(every data call fails and latches); question / record / seek calls that run into that item fail and latch "
+                   "(question_fail, bad_header, skipSectionImpl_fail, seekImpl_fail); only sections in front of it ever get a known "
+                   "offset (Reached); seek succeeds whenever the documented criterion holds and lands on the first record of the "
+                   "section (or the next non-empty one); record offsets grow. Every well-formed message is skippable entirely "
+                   "(passAll_of_msgAt), with a concrete instance as non-vacuity example. Trusted: Lean kernel; model of "
                    "reader.rs/section_tracker.rs (validated by `seekhist`/`reader`); tools/spec_c09.py.",
         streams=[dict(name="seekhist"), dict(name="reader", quick=8000)],
         explanation="C09: done_sticky, *_error_latches, seek_error, seek_known, exhausted_reports_done, header_attribution, "
                     "data_advances, last_question, seek_index, seek_lands, doc_known, learned_offsets_true, pair_follows_pass; "
-                    "C09History: sit_step, run_conforming, run_documented, seek_when_documented, sit_after_header, sane_after_header, offsets_grow; stream `seekhist`.",
+                    "C09History: reader_follows_pass, sit_step, run_conforming, run_documented, seek_when_documented, sit_after_header, sane_after_header, passAll_of_msgAt, offsets_grow; stream `seekhist`.",
     ),
     "C06": dict(
         level="proof", module="Rsdns.Props.C06", modules=["Rsdns.Props.C06", "Rsdns.Props.C06Refines"],
